@@ -329,7 +329,10 @@ def unif_case(draw, tier):
     return {"u": v, "shape": shape,
             "perm": draw(st.permutations(list(range(n)))),
             "bad": draw(st.sampled_from([-1e-9, 1 + 1e-9, float("nan"), 2.,
-                                         -0.5, float("inf")])),
+                                         -0.5, float("inf"), -1e-17,
+                                         -1e-300, -5e-324, 1 + 2.**-52,
+                                         float("-inf"), -2.**-53, 1e300,
+                                         -1e-16])),
             "badpos": draw(st.integers(0, n))}
 
 
